@@ -468,7 +468,29 @@ func init() {
 		Stub: []string{"network: vnet router wrapped by the seeded per-datagram fate function (drop/dup/corrupt/delay/partition)", "signaling: in-process, non-trickle"},
 		Assumptions: []string{"liveness budget 60 s fake after the last fault; runs where ICE failed or the connection was lost are counted inconclusive for completeness, never for integrity",
 			"goroutine interleaving inside the Go runtime is not controlled (decision-exact replay)"},
-		Shrink: []string{"channels", "net.partitions"},
-		Gen:    c19Gen, Run: c19Run,
+		Shrink: []string{"channels", "net.partitions", "dc.tasks"},
+		Gen: func(seed uint64, idx, total int, tier string) any {
+			if idx%4 == 3 {
+				// schedule-dependent part: channels created while the transports are coming up, under
+				// the focus-coop scheduler (dcsim_test.go); oracle = the channel opens and is announced
+				return map[string]any{"mode": "coop", "dc": dcGenFor("C19")(seed, idx, total, tier)}
+			}
+			return c19Gen(seed, idx, total, tier)
+		},
+		Run: func(t *testing.T, cj []byte, res *vfResult) {
+			var probe struct {
+				Mode string          `json:"mode"`
+				DC   json.RawMessage `json:"dc"`
+			}
+			if json.Unmarshal(cj, &probe) == nil && probe.Mode == "coop" {
+				dcRunFor("C19")(t, probe.DC, res)
+				res.stat("runs_coop_creation", 1)
+				if len(res.Case) > 0 { // keep the wrapper around a rewritten (schedule-carrying) case
+					res.Case, _ = json.Marshal(map[string]any{"mode": "coop", "dc": json.RawMessage(res.Case)})
+				}
+				return
+			}
+			c19Run(t, cj, res)
+		},
 	})
 }
